@@ -22,7 +22,7 @@ Steps(k) == Trace[p[k]].steps
 (* Lock-order discipline, the assumption on which the design model FsProto.tla proves freedom from deadlock: a        *)
 (* transaction that already holds locks acquires only (i) a larger inode number, (ii) a number it already holds, or   *)
 (* (iii) the number it has just allocated for a new object while holding the directory only (nobody can hold that     *)
-(* one and wait). Exempt and reported separately: acquisitions from dir.Apply under READDIRPLUS (known finding).      *)
+(* one and wait). (READDIRPLUS used to lock every child while holding the directory - repaired: only larger numbers.) *)
 RECURSIVE Walk(_, _, _, _)
 Walk(i, k, hd, out) ==
   LET steps == Trace[i].steps IN
@@ -31,7 +31,7 @@ Walk(i, k, hd, out) ==
        IF st.op = "rel" THEN Walk(i, k + 1, hd \ {st.inum}, out)
        ELSE LET below == hd # {} /\ st.inum \notin hd /\ (\E h \in hd : h > st.inum)
                 fresh == Trace[i].call.proc \in {"CREATE", "MKDIR", "SYMLINK"} /\ Cardinality(hd) = 1
-                viol  == below /\ ~fresh /\ st.ctx # "apply"
+                viol  == below /\ ~fresh
             IN Walk(i, k + 1, hd \cup {st.inum}, IF viol THEN Append(out, [id |-> Trace[i].id, step |-> k, inum |-> st.inum, held |-> hd]) ELSE out)
 OrderViolations(i) == Walk(i, 1, {}, <<>>)
 OrderCheck == /\ \A i \in ProgIdx : OrderViolations(i) = <<>> \/ PrintT("ORDER " \o ToJson(OrderViolations(i)))
